@@ -296,3 +296,23 @@ def c14_front(tier):
                                         "bounded": True, "how": "vx-replay (real crates)", "cases_tried": r["cases"]}
                         return [r]
     return [r]
+
+
+def c06_catalogue(tier):
+    """C06 stand-in for the parts of query::resolve that are not under contract: the rule catalogue applied at several positions;
+    generation must not succeed for any entry.  One bounded obligation per rule kind."""
+    from vxreplay import c06_cases
+    kinds = {}
+    for case, oracle in c06_cases(tier):
+        res = gen(case["schema"], "graphql", case["query"])
+        why = oracle(res)
+        # recover the kind label from the oracle's closure text
+        label = oracle.__defaults__[0] if oracle.__defaults__ else "k?"
+        kind = label.split()[0]
+        r = kinds.setdefault(kind, bounded("C06.%s.bounded" % kind, "rule %s of the catalogue: generation does not succeed" % kind, "the catalogue entries of kind %s in lib/vxreplay.py (fixed schema, several positions)" % kind))
+        r["cases"] += 1
+        if why and r["status"] == "ok":
+            r["status"] = "fail"
+            r["detail"] = "%s: `%s`" % (why, case["query"])
+            r["witness"] = {"case": case, "observed": r["detail"], "bounded": True, "how": "vx-replay (real crates)", "cases_tried": r["cases"]}
+    return list(kinds.values())
